@@ -511,7 +511,7 @@ SCHED_LINES = {
     '_logger.error("Error preparing JSON-RPC result: %s", fault)': SL,
 }
 SCHED_FN = "SimpleJSONRPCDispatcher._marshaled_single_dispatch"
-SINGLE_KINDS = ["call-2.0", "call-1.0", "failing-2.0", "failing-1.0", "fault-2.0", "fault-1.0", "unknown-1.0",
+SINGLE_KINDS = ["call-2.0", "call-1.0", "failing-2.0", "failing-1.0", "fault-2.0", "fault-1.0", "unknown-1.0", "opq-1.0", "echo-bool-1.0",
                 "notification-2.0", "notification-1.0", "echo-1.0", "bad-arity-1.0"]
 DOC_PREFIXES = ('"' * 3, "'" * 3, "#", ":param", ":return")
 
@@ -553,7 +553,8 @@ class LineSched(pipeline.Stream):
                 "prefix": list(prefix)}
 
     def gen(self, tier, rng):
-        pairs = [("call-1.0", "call-1.0"), ("call-1.0", "call-2.0"), ("fault-1.0", "failing-1.0"), ("notification-1.0", "echo-1.0")]
+        pairs = [("call-1.0", "call-1.0"), ("call-1.0", "call-2.0"), ("fault-1.0", "failing-1.0"), ("notification-1.0", "echo-1.0"),
+                 ("opq-1.0", "call-2.0")]
         if tier == "thorough":
             pairs += [("failing-1.0", "call-2.0"), ("bad-arity-1.0", "unknown-1.0"), ("fault-2.0", "fault-1.0"), ("call-2.0", "call-2.0")]
         cases = []
